@@ -436,7 +436,10 @@ pub fn trace_buffered<'a>(src: ChunkedRead<'a>, cfg: &CfgHist) -> (Trace, Chunke
     for call in 0..limit {
         apply_cfg(r.config_mut(), cfg.at(call as u32));
         let before = r.buffer_position();
-        buf.clear();
+        // the caller's buffer may be reused without clearing it (it only grows): every third call here
+        if (call + len) % 3 != 0 {
+            buf.clear();
+        }
         let res = r.read_event_into(&mut buf);
         let obs = result_obs(&res);
         drop(res);
@@ -477,7 +480,9 @@ pub fn trace_async<'a>(src: AsyncChunked<'a>, cfg: &CfgHist) -> Result<(Trace, A
     for call in 0..limit {
         apply_cfg(r.config_mut(), cfg.at(call as u32));
         let before = r.buffer_position();
-        buf.clear();
+        if (call + len) % 3 != 0 {
+            buf.clear();
+        }
         let max_polls = 64 + 300 * (len as u64 + 2);
         let (obs, polls) = {
             let fut = r.read_event_into_async(&mut buf);
